@@ -42,6 +42,9 @@ def instances(tier):
         for a in (0, 1, 2):
             out.append({"kind": "sends", "gen": g, "k": 2, "a": a, "cat": [3, 0], "bp": False})
         out.append({"kind": "sends", "gen": g, "k": k, "a": 1, "cat": [3, 17, 0, 5][:k], "bp": False})
+        # the same command submitted twice (equal message objects) must go out twice
+        out.append({"kind": "sends", "gen": g, "k": 2, "a": 1, "cat": [3, 3], "bp": False, "dup": True})
+        out.append({"kind": "sends", "gen": g, "k": 3, "a": 1, "cat": [0, 3, 0], "bp": False, "dup": True})
         out.append({"kind": "sends", "gen": g, "k": 2, "a": 0, "cat": [3, 17], "bp": True})
         out.append({"kind": "sends", "gen": g, "k": 2, "a": 1, "cat": [3, 17], "bp": True})
     # every message class as first/second message (content check of the frame of *that* message)
@@ -147,7 +150,9 @@ def _sends(ctx, p):
         rig.net.on_connect = lambda net, n: ("accept", lat) if n >= a else ("refuse",)
         if bp_delay is not None:
             rig.net.on_drain = lambda conn, n: bp_delay if n == 1 else None
-        msgs = [cat[p["cat"][i]][1](i + 1) for i in range(k)]
+        dup = p.get("dup", False)
+        ident = (lambda i: 1) if dup else (lambda i: i + 1)      # dup: messages of the same class are equal objects
+        msgs = [cat[p["cat"][i]][1](ident(i)) for i in range(k)]
 
         def sender(i):
             async def go():
@@ -178,7 +183,7 @@ def _sends(ctx, p):
                 when = first_written + bp_delay
             written = when < ts[i] + Ls[i]     # strictly within its lifetime; trivially true when sent while connected
             if bool(written) if not isinstance(written, bool) else written:
-                fr = catalog.ref_frame(g.n, cat[p["cat"][i]], i + 1, i)   # pid = order of the send() calls
+                fr = catalog.ref_frame(g.n, cat[p["cat"][i]], ident(i), i)   # pid = order of the send() calls
                 exp_bytes += fr
                 exp_times.append((when, len(fr)))
                 if first_written is None:
